@@ -363,7 +363,7 @@ class Negative(Term):
         return self.term.is_aggregate
 
     def get_sql(self, ctx: SqlContext) -> str:
-        term_sql = self.term.get_sql(ctx)
+        term_sql = self.term.get_sql(ctx.copy(with_alias=False))
         if isinstance(self.term, ArithmeticExpression) or term_sql.startswith("-"):
             # -(a+b) must not become -a+b, and -(-a) must not become the comment opener --a
             term_sql = "({})".format(term_sql)
@@ -551,7 +551,7 @@ class Values(Term):
         yield from self.field.nodes_()
 
     def get_sql(self, ctx: SqlContext) -> str:
-        return "VALUES({value})".format(value=self.field.get_sql(ctx))
+        return "VALUES({value})".format(value=self.field.get_sql(ctx.copy(with_alias=False)))
 
 
 class LiteralValue(Term):
@@ -714,7 +714,8 @@ class Tuple(Criterion):
             yield from value.nodes_()
 
     def get_sql(self, ctx: SqlContext) -> str:
-        sql = "({})".format(",".join(term.get_sql(ctx) for term in self.values))
+        element_ctx = ctx.copy(with_alias=False)
+        sql = "({})".format(",".join(term.get_sql(element_ctx) for term in self.values))
         return format_alias_sql(sql, self.alias, ctx)
 
     @property
@@ -747,7 +748,8 @@ class Array(Tuple):
         if ctx.parameterizer is None or not ctx.parameterizer.should_parameterize(
             self.original_value
         ):
-            values = ",".join(term.get_sql(ctx) for term in self.values)
+            element_ctx = ctx.copy(with_alias=False)
+            values = ",".join(term.get_sql(element_ctx) for term in self.values)
 
             sql = "[{}]".format(values)
             if ctx.dialect in (Dialects.POSTGRESQL, Dialects.REDSHIFT):
@@ -812,12 +814,13 @@ class NestedCriterion(Criterion):
         self.nested = self.right.replace_table(current_table, new_table)
 
     def get_sql(self, ctx: SqlContext) -> str:
+        operand_ctx = ctx.copy(with_alias=False)
         sql = "{left}{comparator}{right}{nested_comparator}{nested}".format(
-            left=self.left.get_sql(ctx),
+            left=self.left.get_sql(operand_ctx),
             comparator=self.comparator.value,
-            right=self.right.get_sql(ctx),
+            right=self.right.get_sql(operand_ctx),
             nested_comparator=self.nested_comparator.value,  # type:ignore[attr-defined]
-            nested=self.nested.get_sql(ctx),
+            nested=self.nested.get_sql(operand_ctx),
         )
 
         if ctx.with_alias:
@@ -880,10 +883,11 @@ class BasicCriterion(Criterion):
         self.right = self.right.replace_table(current_table, new_table)
 
     def get_sql(self, ctx: SqlContext) -> str:
+        operand_ctx = ctx.copy(with_alias=False)
         sql = "{left}{comparator}{right}".format(
             comparator=self.comparator.value,
-            left=self.left.get_sql(ctx),
-            right=self.right.get_sql(ctx),
+            left=self.left.get_sql(operand_ctx),
+            right=self.right.get_sql(operand_ctx),
         )
         if ctx.with_alias:
             return format_alias_sql(sql, self.alias, ctx)
@@ -933,9 +937,9 @@ class ContainsCriterion(Criterion):
         self.term = self.term.replace_table(current_table, new_table)
 
     def get_sql(self, ctx: SqlContext) -> str:
-        container_ctx = ctx.copy(subquery=True)
+        container_ctx = ctx.copy(subquery=True, with_alias=False)
         sql = "{term} {not_}IN {container}".format(
-            term=self.term.get_sql(ctx),
+            term=self.term.get_sql(ctx.copy(with_alias=False)),
             container=self.container.get_sql(container_ctx),
             not_="NOT " if self._is_negated else "",
         )
@@ -983,20 +987,22 @@ class BetweenCriterion(RangeCriterion):
 
     def get_sql(self, ctx: SqlContext) -> str:
         # FIXME escape
+        operand_ctx = ctx.copy(with_alias=False)
         sql = "{term} BETWEEN {start} AND {end}".format(
-            term=self.term.get_sql(ctx),
-            start=self.start.get_sql(ctx),
-            end=self.end.get_sql(ctx),
+            term=self.term.get_sql(operand_ctx),
+            start=self.start.get_sql(operand_ctx),
+            end=self.end.get_sql(operand_ctx),
         )
         return format_alias_sql(sql, self.alias, ctx)
 
 
 class PeriodCriterion(RangeCriterion):
     def get_sql(self, ctx: SqlContext) -> str:
+        operand_ctx = ctx.copy(with_alias=False)
         sql = "{term} FROM {start} TO {end}".format(
-            term=self.term.get_sql(ctx),
-            start=self.start.get_sql(ctx),
-            end=self.end.get_sql(ctx),
+            term=self.term.get_sql(operand_ctx),
+            start=self.start.get_sql(operand_ctx),
+            end=self.end.get_sql(operand_ctx),
         )
         return format_alias_sql(sql, self.alias, ctx)
 
@@ -1030,7 +1036,7 @@ class BitwiseAndCriterion(Criterion):
 
     def get_sql(self, ctx: SqlContext) -> str:
         sql = "({term} & {value})".format(
-            term=self.term.get_sql(ctx),
+            term=self.term.get_sql(ctx.copy(with_alias=False)),
             value=self.value,
         )
         return format_alias_sql(sql, self.alias, ctx)
@@ -1063,15 +1069,15 @@ class NullCriterion(Criterion):
 
     def get_sql(self, ctx: SqlContext) -> str:
         sql = "{term} IS NULL".format(
-            term=self.term.get_sql(ctx),
+            term=self.term.get_sql(ctx.copy(with_alias=False)),
         )
         return format_alias_sql(sql, self.alias, ctx)
 
 
 class ComplexCriterion(BasicCriterion):
     def get_sql(self, ctx: SqlContext) -> str:
-        left_ctx = ctx.copy(subcriterion=self.needs_brackets(self.left))
-        right_ctx = ctx.copy(subcriterion=self.needs_brackets(self.right))
+        left_ctx = ctx.copy(subcriterion=self.needs_brackets(self.left), with_alias=False)
+        right_ctx = ctx.copy(subcriterion=self.needs_brackets(self.right), with_alias=False)
         sql = "{left} {comparator} {right}".format(
             comparator=self.comparator.value,
             left=self.left.get_sql(left_ctx),
@@ -1192,8 +1198,9 @@ class ArithmeticExpression(Term):
         left_op, right_op = [getattr(side, "operator", None) for side in [self.left, self.right]]
 
         # render left before right: a parameterizer collects values in rendering order
-        left_sql = self.left.get_sql(ctx)
-        right_sql = self.right.get_sql(ctx)
+        operand_ctx = ctx.copy(with_alias=False)
+        left_sql = self.left.get_sql(operand_ctx)
+        right_sql = self.right.get_sql(operand_ctx)
         right_parens = self.right_needs_parens(self.operator, right_op)
         if self.operator == Arithmetic.sub and right_sql.startswith("-"):
             # a-(-1) must not become a--1, which opens an SQL comment
@@ -1297,7 +1304,7 @@ class Not(Criterion):
         yield from self.term.nodes_()
 
     def get_sql(self, ctx: SqlContext) -> str:
-        not_ctx = ctx.copy(subcriterion=True)
+        not_ctx = ctx.copy(subcriterion=True, with_alias=False)
         sql = "NOT {term}".format(term=self.term.get_sql(not_ctx))
         return format_alias_sql(sql, self.alias, ctx)
 
@@ -1347,7 +1354,7 @@ class All(Criterion):
         yield from self.term.nodes_()
 
     def get_sql(self, ctx: SqlContext) -> str:
-        sql = "{term} ALL".format(term=self.term.get_sql(ctx))
+        sql = "{term} ALL".format(term=self.term.get_sql(ctx.copy(with_alias=False)))
         return format_alias_sql(sql, self.alias, ctx)
 
 
@@ -1436,7 +1443,7 @@ class Function(Criterion):
 
     def get_sql(self, ctx: SqlContext) -> str:
         # FIXME escape
-        function_sql = self.get_function_sql(ctx)
+        function_sql = self.get_function_sql(ctx.copy(with_alias=False))
 
         if self.schema is not None:
             function_sql = "{schema}.{function}".format(
@@ -1786,7 +1793,7 @@ class AtTimezone(Term):
 
     def get_sql(self, ctx: SqlContext) -> str:
         sql = "{name} AT TIME ZONE {interval}'{zone}'".format(
-            name=self.field.get_sql(ctx),
+            name=self.field.get_sql(ctx.copy(with_alias=False)),
             interval="INTERVAL " if self.interval else "",
             zone=self.zone,
         )
